@@ -86,8 +86,10 @@ macro_rules! buf_get_impl {
 
 // https://en.wikipedia.org/wiki/Sign_extension
 fn sign_extend(val: u64, nbytes: usize) -> i64 {
-    let shift = (8 - nbytes) * 8;
-    (val << shift) as i64 >> shift
+    let shift = ((8 - nbytes) * 8) as u32;
+    (val.checked_shl(shift).unwrap_or(0) as i64)
+        .checked_shr(shift)
+        .unwrap_or(0)
 }
 
 /// Read bytes from a buffer.
